@@ -13,6 +13,7 @@ from sim import adapters, workload
 from sim.core import EndRun, close, np_seed
 
 PROP = "C02"
+FORKS = True      # snapshot / restore events (core.Ctx.maybe_fork)
 LEVEL = "exploration"
 RULE = (
     "DDM, EDDM, STEPD, PageHinkley, CUSUM, KdqTreeStreaming, KdqTreeBatch, HDDDM, CDBD, NNDVI x randomised knobs x "
@@ -95,6 +96,7 @@ def run(case, ctx):
     last_state = None
     for i, ev in enumerate(case["events"]):
         ctx.step = i
+        P = ctx.maybe_fork(P)          # (the fresh twins are never snapshotted)
         op, x, seed = ev
         a = _args(k, x)
         if op == "ref":
